@@ -127,6 +127,17 @@ package unmarshal
 //@   check key-day: bs[0] + 256*bs[1] + 65536*bs[2] + 16777216*bs[3] + 4294967296*bs[4] + 1099511627776*bs[5] + 281474976710656*bs[6] + 72057594037927936*bs[7] == (dateTS >= 0 ? dateTS : dateTS + 18446744073709551616)
 //@   check key-fingerprint: bs[8] + 256*bs[9] + 65536*bs[10] + 16777216*bs[11] + 4294967296*bs[12] + 1099511627776*bs[13] + 281474976710656*bs[14] + 72057594037927936*bs[15] == fp
 //@   check key-is-hash-of-both: _fp == ch64(str(bs[:]))
+//@   replay:
+//@     import "time"
+//@     import "github.com/metrico/qryn/writer/utils/numbercache"
+//@     top: type replayCache struct{ seen map[uint64]bool }
+//@     top: func (c *replayCache) CheckAndSet(k uint64) bool { if c.seen[k] { return true }; c.seen[k] = true; return false }
+//@     top: func (c *replayCache) DB(string) numbercache.ICache[uint64] { return c }
+//@     go: c := &replayCache{seen: map[uint64]bool{}}
+//@     go: d1, d2 := time.Unix(86400*19000, 0), time.Unix(86400*19001, 0)
+//@     go: a, b, e := maybeAddFp(d1, 42, c), maybeAddFp(d2, 42, c), maybeAddFp(d1, 43, c)
+//@     go: if !a || !b || !e { confirm("different (day, fingerprint) pairs share one cache key: (d1,42) new, then (d2,42) and (d1,43) must be new too") }
+//@   end
 
 //@ func (*parserDoer).onEntries [C02,C03,C04]
 //@   requires sameLen(timestampsNS, message, value, types) && knownTypes(types)
